@@ -25,21 +25,30 @@ import (
 // IR
 
 type SelTable struct {
-	Name string      `json:"name"`
-	File bool        `json:"file,omitempty"` // CSV file <name>.csv, else temporary table
-	Cols []string    `json:"cols"`
-	Rows [][]val.Val `json:"rows"`
+	Name string `json:"name"`
+	File bool   `json:"file,omitempty"` // CSV file <name>.csv, else temporary table
+	// Format of a file table: "" = csv; tsv, json, jsonl, ltsv (file
+	// <name>.<format>) or stdin (the data is piped to the session and the
+	// table is written STDIN).
+	Format string      `json:"format,omitempty"`
+	Cols   []string    `json:"cols"`
+	Rows   [][]val.Val `json:"rows"`
 }
 
-// SelExpr kinds: col, lit, cmp, isnull, and, or, not, in, between, arith.
+// SelExpr kinds: col, lit, cmp, isnull, and, or, not, in, between, arith, and
+// the forms with a nested query (Sub), which may refer to the columns of the
+// enclosing queries: exists ([NOT] EXISTS), insub (x [NOT] IN (query)), quant
+// (x op ANY|ALL (query)), scalar (a subquery used as a value).
 type SelExpr struct {
-	Kind string     `json:"kind"`
-	View string     `json:"view,omitempty"` // col: qualifier, "" = bare reference
-	Col  string     `json:"col,omitempty"`
-	Lit  *val.Val   `json:"lit,omitempty"`
-	Op   string     `json:"op,omitempty"`  // cmp: = <> < <= > >= ; arith: + - *
-	Neg  bool       `json:"neg,omitempty"` // IS NOT NULL, NOT IN, NOT BETWEEN
-	Args []*SelExpr `json:"args,omitempty"`
+	Kind  string     `json:"kind"`
+	View  string     `json:"view,omitempty"` // col: qualifier, "" = bare reference
+	Col   string     `json:"col,omitempty"`
+	Lit   *val.Val   `json:"lit,omitempty"`
+	Op    string     `json:"op,omitempty"`  // cmp: = <> < <= > >= ; arith: + - *
+	Neg   bool       `json:"neg,omitempty"` // IS NOT NULL, NOT IN, NOT BETWEEN
+	Args  []*SelExpr `json:"args,omitempty"`
+	Sub   *SelQuery  `json:"sub,omitempty"`   // exists, insub, quant, scalar
+	Quant string     `json:"quant,omitempty"` // quant: ANY | ALL
 }
 
 type SelField struct {
@@ -51,9 +60,15 @@ type SelField struct {
 
 // SelSource kinds: table (table or CTE name), sub (subquery), join.
 type SelSource struct {
-	Kind    string    `json:"kind"`
-	Name    string    `json:"name,omitempty"`
-	Ext     bool      `json:"ext,omitempty"` // file table written as `name.csv`
+	Kind string `json:"kind"`
+	Name string `json:"name,omitempty"`
+	Ext  bool   `json:"ext,omitempty"` // file table written as `name.csv`
+	// Fmt: format of the file behind a table source ("" = csv; tsv json jsonl
+	// ltsv stdin). Form: how the file is written: "" = table name (with the
+	// extension when Ext), func = format specified function (CSV(',', `f`),
+	// JSON('', `f`), LTSV(`f`) ...), file = FILE::('f'), inline = INLINE::('f').
+	Fmt     string    `json:"fmt,omitempty"`
+	Form    string    `json:"form,omitempty"`
 	Alias   string    `json:"alias,omitempty"`
 	As      bool      `json:"as,omitempty"`
 	Sub     *SelQuery `json:"sub,omitempty"`
@@ -74,8 +89,9 @@ type SelCTE struct {
 	Name      string    `json:"name"`
 	Cols      []string  `json:"cols,omitempty"`
 	Recursive bool      `json:"recursive,omitempty"`
-	Query     *SelQuery `json:"query,omitempty"` // non-recursive body, or base of the recursion
-	Step      *SelQuery `json:"step,omitempty"`  // recursive member (UNION ALL)
+	Query     *SelQuery `json:"query,omitempty"`    // non-recursive body, or base of the recursion
+	Step      *SelQuery `json:"step,omitempty"`     // recursive member (UNION ALL)
+	Distinct  bool      `json:"distinct,omitempty"` // recursive: UNION instead of UNION ALL
 }
 
 type SelQuery struct {
@@ -134,7 +150,7 @@ func SelExprSQL(e *SelExpr) string {
 		}
 		return "(" + SelExprSQL(e.Args[0]) + " " + not + "BETWEEN " + SelExprSQL(e.Args[1]) + " AND " + SelExprSQL(e.Args[2]) + ")"
 	}
-	return "<?" + e.Kind + ">"
+	return selExprSQLExt(e)
 }
 
 // condSQL strips the outermost parentheses of a condition (both spellings are
@@ -152,7 +168,9 @@ func selSourceSQL(s *SelSource) string {
 	var b strings.Builder
 	switch s.Kind {
 	case "table":
-		if s.Ext {
+		if s.Fmt != "" || s.Form != "" {
+			b.WriteString(selFileSourceSQL(s))
+		} else if s.Ext {
 			b.WriteString("`" + s.Name + ".csv`")
 		} else {
 			b.WriteString(s.Name)
@@ -258,7 +276,9 @@ func SelSQL(q *SelQuery) string {
 				b.WriteString(" (" + strings.Join(c.Cols, ", ") + ")")
 			}
 			b.WriteString(" AS (" + SelSQL(c.Query))
-			if c.Recursive {
+			if c.Recursive && c.Distinct {
+				b.WriteString(" UNION " + SelSQL(c.Step))
+			} else if c.Recursive {
 				b.WriteString(" UNION ALL " + SelSQL(c.Step))
 			}
 			b.WriteString(")")
@@ -303,6 +323,36 @@ func (w *selWalk) query(q *SelQuery, d int) {
 	}
 	if q.Where != nil {
 		w.ops["where"]++
+		w.expr(q.Where, d)
+	}
+	for _, f := range q.Fields {
+		if f.Expr != nil {
+			w.expr(f.Expr, d)
+		}
+	}
+}
+
+// expr counts the nested-query forms inside an expression (pred_exists,
+// pred_in_sub, pred_any, pred_all, scalar_sub).
+func (w *selWalk) expr(e *SelExpr, d int) {
+	if e == nil {
+		return
+	}
+	if e.Sub != nil {
+		switch e.Kind {
+		case "exists":
+			w.ops["pred_exists"]++
+		case "insub":
+			w.ops["pred_in_sub"]++
+		case "quant":
+			w.ops["pred_"+strings.ToLower(e.Quant)]++
+		default:
+			w.ops["scalar_sub"]++
+		}
+		w.query(e.Sub, d+1)
+	}
+	for _, a := range e.Args {
+		w.expr(a, d)
 	}
 }
 
@@ -325,6 +375,7 @@ func (w *selWalk) source(s *SelSource, d int) {
 		w.ops[name]++
 		w.source(s.Left, d)
 		w.source(s.Right, d)
+		w.expr(s.On, d)
 	}
 }
 
@@ -347,7 +398,7 @@ func SelOps(q *SelQuery) (ops []string, depth int, hasJoin, hasNested, hasOuter 
 		ops = append(ops, fmt.Sprintf("%s*%d", k, n))
 		switch {
 		case k == "where":
-		case k == "subquery" || strings.HasPrefix(k, "cte"):
+		case k == "subquery" || strings.HasPrefix(k, "cte") || strings.HasPrefix(k, "pred_") || k == "scalar_sub":
 			hasNested = true
 		default:
 			hasJoin = true
@@ -394,6 +445,15 @@ type SelStats struct {
 	RightUsingOpen   bool // RIGHT join merged a USING column whose two values differ in spelling or type
 	OpenCmp          bool // a comparison ended at the open text rung
 	Pairs            int  // work: row pairs examined by joins, rows filtered and projected
+	SubEvals         int  // evaluations of nested queries inside expressions (EXISTS, IN, ANY/ALL, scalar)
+	SubTrue          int  // ... subquery predicates that came out TRUE
+	SubNotTrue       int  // ... subquery predicates that came out FALSE or UNKNOWN
+	SubUnknown       int  // ... of these UNKNOWN
+	ScalarEmpty      int  // scalar subqueries without a row (NULL)
+	RecSteps         int  // largest number of non-empty executions of a recursive member
+	RecDupRemoved    int  // rows a recursive UNION (without ALL) removed as duplicates
+	RecLimitOpen     bool // a recursion needed exactly as many non-empty executions as the limit allows: whether the final, empty execution counts is not documented
+	DistinctOpen     bool // a recursive UNION met two rows that are equal as values but not identical (which one is shown is outside C03)
 }
 
 type SelResult struct {
@@ -462,6 +522,8 @@ type selEval struct {
 	nextID     int
 	resolved   map[selResKey]selResVal
 	cmpCache   map[selCmpKey]selCmpVal
+	curEnv     *selEnv // CTE environment of the query being evaluated (for nested queries inside expressions)
+	limitRec   int     // > 0: --limit-recursion
 }
 
 // SelReading fixes the outcomes the manual leaves open.
@@ -472,16 +534,11 @@ type SelReading struct {
 
 // SelEval interprets the query over the tables.
 func SelEval(tables []SelTable, q *SelQuery, rd SelReading) (*SelResult, error) {
-	ev := &selEval{tables: map[string]*SelTable{}, openText: rd.OpenText, rightUsing: rd.RightUsing,
-		resolved: map[selResKey]selResVal{}, cmpCache: map[selCmpKey]selCmpVal{}}
-	for i := range tables {
-		ev.tables[tables[i].Name] = &tables[i]
-	}
-	rel, labels, err := ev.query(q, &selEnv{}, nil)
+	r, err := SelEvalOpt(tables, q, SelOptions{Reading: rd})
 	if err != nil {
 		return nil, err
 	}
-	return &SelResult{Labels: labels, Rows: rel.rows, Ordered: rel.ordered, Stats: ev.stats}, nil
+	return r, nil
 }
 
 // charge accounts for n units of work (row pairs joined, rows filtered or
@@ -676,7 +733,7 @@ func (ev *selEval) eval(e *SelExpr, sc *selScope) (val.Val, error) {
 		}
 		return val.Tern(t), nil
 	}
-	return val.Null, selErr("shape", "expression kind %q", e.Kind)
+	return ev.evalExt(e, sc)
 }
 
 // SelJoinCols computes the columns of a join result and the merged column
@@ -1055,9 +1112,12 @@ func (ev *selEval) cte(c *SelCTE, env *selEnv, outer *selScope) (*selRel, error)
 	if !c.Recursive {
 		return cur, nil
 	}
-	// the recursive member sees the rows of the previous step; the result is
-	// the UNION ALL of all steps; iteration ends with the first empty step
+	// the recursive member sees the rows of the previous step (manual: "the
+	// temporary view is replaced by the result set of the recursive select
+	// query"); the result is the UNION [ALL] of all steps; iteration ends with
+	// the first empty step
 	all := &selRel{cols: cur.cols, rows: append([][]val.Val{}, cur.rows...), id: ev.newID()}
+	steps := 0
 	for it := 0; ; it++ {
 		if it > selMaxIter {
 			return nil, selErr("no_termination", "CTE %s: more than %d iterations", c.Name, selMaxIter)
@@ -1073,11 +1133,43 @@ func (ev *selEval) cte(c *SelCTE, env *selEnv, outer *selScope) (*selRel, error)
 		if len(next.rows) == 0 {
 			break
 		}
+		steps++
+		if ev.quiet == 0 && steps > ev.stats.RecSteps {
+			ev.stats.RecSteps = steps
+		}
+		if ev.limitRec > 0 && steps > ev.limitRec {
+			// more non-empty executions than the limit allows under any reading
+			return nil, selErr("recursion_limit", "CTE %s: more than %d iterations", c.Name, ev.limitRec)
+		}
 		all.rows = append(all.rows, next.rows...)
 		if len(all.rows) > selMaxRows {
 			return nil, selErr("too_big", "CTE %s: %d rows", c.Name, len(all.rows))
 		}
+		if err := ev.charge(len(next.rows)); err != nil {
+			return nil, err
+		}
 		cur = &selRel{cols: all.cols, rows: next.rows, id: ev.newID()}
+	}
+	if ev.quiet == 0 {
+		if steps > ev.stats.RecSteps {
+			ev.stats.RecSteps = steps
+		}
+		if ev.limitRec > 0 && steps == ev.limitRec {
+			ev.stats.RecLimitOpen = true
+		}
+	}
+	if c.Distinct {
+		rows, open, err := ev.distinctRows(all.rows)
+		if err != nil {
+			return nil, err
+		}
+		if ev.quiet == 0 {
+			ev.stats.RecDupRemoved += len(all.rows) - len(rows)
+			if open {
+				ev.stats.DistinctOpen = true
+			}
+		}
+		all.rows = rows
 	}
 	return all, nil
 }
@@ -1095,6 +1187,9 @@ func (ev *selEval) query(q *SelQuery, env *selEnv, outer *selScope) (*selRel, []
 			env.ctes[q.With[i].Name] = rel
 		}
 	}
+	savedEnv := ev.curEnv
+	ev.curEnv = env
+	defer func() { ev.curEnv = savedEnv }()
 	rel, err := ev.from(q, env, outer)
 	if err != nil {
 		return nil, nil, err
